@@ -78,6 +78,7 @@ type Plan struct {
 	HookTimeoutMs int
 	OpTimeoutMs   int // a request that has not returned after this long is reported as hanging
 	SettleMs      int // pause after the last request before the process group is inspected
+	KeepWalking   bool // go on with the transition requests after one failed (each answer is judged by itself)
 }
 
 type Obs struct {
@@ -511,7 +512,7 @@ func main() {
 			emit(Obs{Kind: "note", Step: i, Detail: "request not delivered: the task has reported a terminal status and is no longer active"})
 			continue
 		}
-		if st.Op == "transition" && walkBroken() {
+		if st.Op == "transition" && walkBroken() && !plan.KeepWalking {
 			// the core does not send further transitions after one failed or timed out; it goes on to tear down
 			emit(Obs{Kind: "note", Step: i, Detail: "transition skipped after an earlier failure"})
 			continue
